@@ -1,5 +1,5 @@
 """Sidecar: contracts on the real functions of /repo, keyed by file::qualname.  Nothing here edits /repo."""
-MODULES=['bits_reg','dsl','mem','sched','nets','upblk','gendag','portrules','mambaff','sccwrap','watched','netrules','vcdfn','flipgroup']
+MODULES=['bits_reg','dsl','mem','sched','nets','upblk','gendag','portrules','mambaff','sccwrap','watched','netrules','vcdfn','flipgroup','netblk']
 
 def rtl_specs():
   from . import rtl_arb, rtl_queues, rtl_cksum
@@ -138,7 +138,7 @@ PROPERTIES={
    explanation="executable statement of the property evaluated natively on an exhaustively enumerated family of cyclic designs",
    extra=['contracts:c11_extra'], require_cover=False, assumptions=[]),
  'C08': dict(level='other',
-   claim="Mixed. Proved (arbitrary signal sets and arbitrary symmetric adjacency maps, every iteration order of the sets and every pop order of the work list; unbounded): ComponentLevel3._floodfill_nets returns nets that are exactly the connected components with at least two members of the connection graph - every net is closed under adjacency, connected (every member has a ghost parent chain of adjacent members to the net's root), nets are pairwise disjoint, and every listed signal with a neighbour is in one; no exception other than InvalidConnectionError can leave the function. Which member is named writer (_resolve_value_connections) and the simulated values are covered only by the bounded stand-in: 8 connection multisets over signals, slices (incl. a slice of a slice naming the same bits as a plain slice), struct fields at two depths with the whole struct connected too, constants and child ports, each in up to 6 (quick) / 24 (thorough) statement permutations x 3 side-flip patterns (117 designs quick): every variant elaborates to the same nets and writers, each net has exactly one writer that is a member, and in simulation every member carries the writer's value.",
+   claim="Mixed. Proved (arbitrary signal sets and arbitrary symmetric adjacency maps, every iteration order of the sets and every pop order of the work list; unbounded): ComponentLevel3._floodfill_nets returns nets that are exactly the connected components with at least two members of the connection graph - every net is closed under adjacency, connected (every member has a ghost parent chain of adjacent members to the net's root), nets are pairwise disjoint, and every listed signal with a neighbour is in one; no exception other than InvalidConnectionError can leave the function; the reader selection of GenDAGPass._generate_net_blocks (a region of the function) copies the writer's value to exactly the members that do not share the net's value object (slices, struct fields; plus one top-level member when the writer itself is a slice / field). Which member is named writer (_resolve_value_connections) and the simulated values are covered only by the bounded stand-in: 8 connection multisets over signals, slices (incl. a slice of a slice naming the same bits as a plain slice), struct fields at two depths with the whole struct connected too, constants and child ports, each in up to 6 (quick) / 24 (thorough) statement permutations x 3 side-flip patterns (117 designs quick): every variant elaborates to the same nets and writers, each net has exactly one writer that is a member, and in simulation every member carries the writer's value.",
    note="_resolve_value_connections (writer choice) is not under a discharged contract; the list `nets` is abstracted as {root: net}, the work list as a bag (contracts/nets.py). The stand-in is labelled bounded.",
    explanation="net grouping proved deductively on the real function; writer choice and simulated net values by an executable statement of the property on an enumerated family of connection graphs",
    extra=['contracts:c08_extra'], require_cover=False, assumptions=["the adjacency map is symmetric (every connect/disconnect updates both directions)"]),
